@@ -332,12 +332,56 @@ def main():
     chk.cov['traces_validated_against_impl'] += n
     for b in bad:
         chk.violation('textx check: %s' % b, b)
+    n, bad = generic_fallback()
+    chk.cov['traces_validated_against_impl'] += n
+    for b in bad:
+        chk.violation('textx generate, generic generator: %s' % b['detail'], b)
     chk.cov['paths_explored'] = paths
     chk.cov['distinct_nontrivial'] = paths
     if chk.cov['model_mismatches']:
         chk.harness_error('a symbolic path result did not reproduce concretely')
     return chk.finish('one exploration per (name length, second argument kind/length, declared parameters); each path '
                       'is one z3-feasible decision pattern of the real argument loop with the names pinned by forking')
+
+
+def generic_fallback():
+    """the language is deduced from the file name, it has a generator for another target only, and a generic
+    ('any') generator exists for the requested target: that one runs, with the custom arguments"""
+    import textx.registration as REG
+    out = []
+    received = setup_registry(None)          # c30lang with its generator for target c30t
+    generic = []
+
+    def gen_any(metamodel, model, output_path, overwrite, debug, **kw):
+        generic.append(kw)
+    REG.register_generator(REG.GeneratorDesc('any', 'c30generic', 'x', generator=gen_any))
+    tmpd = tempfile.mkdtemp(prefix='c30g_')
+    fn = os.path.join(tmpd, 'x.c30l')
+    with open(fn, 'w') as f:
+        f.write('m foo')
+    logging.disable(logging.CRITICAL)
+    try:
+        for language, want_code in ((None, 0),):
+            del generic[:]
+            try:
+                callback()(StubCtx(), (fn, '--a', 'v', '--flag'), None, language, 'c30generic', False)
+                code = 0
+            except SystemExit as e:
+                code = e.code
+            except Exception as e:  # noqa
+                code = 'exception %s: %s' % (type(e).__name__, e)
+            if code != want_code:
+                out.append({'kind': 'generic', 'detail': 'textx generate x.c30l --target c30generic%s: exit %r, expected %r' % (
+                    '' if language is None else ' --language ' + language, code, want_code)})
+            elif want_code == 0 and generic != [{'a': 'v', 'flag': True}]:
+                out.append({'kind': 'generic', 'detail': 'the generic generator received %r' % (generic,)})
+    finally:
+        logging.disable(logging.NOTSET)
+        os.remove(fn)
+        os.rmdir(tmpd)
+        REG.clear_generator_registrations()
+        REG.clear_language_registrations()
+    return 1, out
 
 
 def run_concrete_tmp(cargs, declared):
@@ -355,6 +399,9 @@ def run_concrete_tmp(cargs, declared):
 def replay(data):
     if data.get('kind') == 'check':
         n, bad = check_cli()
+        return bool(bad), bad
+    if data.get('kind') == 'generic':
+        n, bad = generic_fallback()
         return bool(bad), bad
     declared = data.get('declared')
     declared = [tuple(x) for x in declared] if declared is not None else None
